@@ -4,7 +4,8 @@
 (*                                                                         *)
 (* The protocol of ONE request:                                            *)
 (*   Compose(method, uri, origin, destination, body)   the sender's intent *)
-(*   Sign(key)          signature over (method, uri, origin, dest, body)   *)
+(*   Sign(nk)           signature(s) over (method, uri, origin, dest, body) *)
+(*                      with one key ID, or with two (key rotation)        *)
 (*   Emit(style)        request line, body, content type and the           *)
 (*                      Authorization header as a token sequence           *)
 (*   Tamper(kind)       the network / a faulty sender alters what is       *)
@@ -24,6 +25,8 @@
 EXTENDS FedHeader, TLC
 
 CONSTANTS Methods, URIs, OriginShapes, DestShapes, Spellings, Bodies, Styles, KeyVals, Cfgs, DestOwns,
+          NKeys,          \* numbers of key IDs the origin signs with (subset of {1, 2})
+          Knowns,         \* which signing keys the receiver knows
           TamperKinds,    \* the tamperings explored
           MaxTamper,      \* at most this many tamperings per request
           Budget          \* (deviations from the base scenario) + (tamperings) <= Budget
@@ -33,6 +36,17 @@ BaseURI    == "plain"
 BaseShape  == "dns"
 BaseStyle  == "canon"
 BaseKV     == "valid"
+BaseKnown  == "both"
+
+\* states of the database record of the origin's key K at the time of receipt in which K is valid:
+\*   valid      valid_until_ts in the future (within 7 days)       validfar  valid_until_ts beyond 7 days
+\*   expfuture  expired_ts in the future (with or without valid_until_ts)
+\* and in which it is not:
+\*   lapsed     valid_until_ts in the past                           expired   expired_ts in the past, no valid_until_ts
+\*   expboth    expired_ts in the past AND valid_until_ts in the future (an expired_ts at or before the time of
+\*              receipt means not valid, whatever valid_until_ts says)
+\*   unknown    no record                                            wrongkey  another public key
+ValidKVs == {"valid", "validfar", "expfuture"}
 
 \* origin names that are not valid server names.  "invalid" is a mixed class; the others are one
 \* grammar violation each and are explored on the otherwise unvaried request (they cost two deviations):
@@ -78,6 +92,7 @@ ReqDev(r) == (IF r.m = BaseMethod THEN 0 ELSE 1) + (IF r.u = BaseURI THEN 0 ELSE
      + (IF r.os = BaseShape THEN 0 ELSE IF r.os \in ExtraInvalidOrigins THEN 2 ELSE 1) + (IF r.ds = BaseShape THEN 0 ELSE 1)
      + (IF r.osp = "lower" THEN 0 ELSE 1) + (IF r.dsp = "lower" THEN 0 ELSE 1)
 StyleDev(st) == IF st = BaseStyle THEN 0 ELSE 1
+NkDev(nk) == IF nk = 1 THEN 0 ELSE 1
 
 \* name shapes that contain letters, so that a name has spellings differing in case only
 \* (mixed-case DNS name with / without port, upper-case hex digits in an IPv6 literal)
@@ -95,24 +110,26 @@ Compose(m, u, os, osp, ds, dsp, down, b) ==
 
 BodyVal(b) == CASE b = "none" -> "none" [] b = "nonutf8" -> "X" [] OTHER -> "B"
 
-Sign(key) ==
+\* nk = 1: signed with key K (signature "S0"); nk = 2: also with key Kb (signature "S0b")
+Sign(nk) ==
     /\ phase = "composed"
-    /\ signed' = [m |-> "M", u |-> "U", o |-> "O", d |-> req.down, b |-> BodyVal(req.body), key |-> key]
+    /\ ReqDev(req) + NkDev(nk) <= Budget
+    /\ signed' = [m |-> "M", u |-> "U", o |-> "O", d |-> req.down, b |-> BodyVal(req.body), nk |-> nk]
     /\ phase' = "signed"
     /\ UNCHANGED <<req, wire, applied, rcv, out>>
 
 Emit(style) ==
     /\ phase = "signed"
-    /\ ReqDev(req) + StyleDev(style) <= Budget
+    /\ ReqDev(req) + NkDev(signed.nk) + StyleDev(style) <= Budget
     /\ wire' = [method |-> signed.m, uri |-> signed.u, body |-> signed.b, ws |-> FALSE,
                 ctype |-> IF signed.b = "none" THEN "absent" ELSE "json",
-                scheme |-> "X-Matrix", origin |-> signed.o, dest |-> signed.d, key |-> signed.key, sig |-> "S0",
+                scheme |-> "X-Matrix", origin |-> signed.o, dest |-> signed.d, key |-> "K", sig |-> "S0", nk |-> signed.nk,
                 dup |-> FALSE, second |-> FALSE, secondc |-> FALSE, nohdr |-> FALSE, bearer |-> FALSE, style |-> style]
     /\ phase' = "sent"
     /\ UNCHANGED <<req, signed, applied, rcv, out>>
 
 \* ----------------------------------------------------------------- network
-Dev == ReqDev(req) + StyleDev(wire.style)
+Dev == ReqDev(req) + NkDev(signed.nk) + StyleDev(wire.style)
 
 Tamper(k) ==
     /\ phase = "sent"
@@ -182,11 +199,13 @@ Join(style, ps, vals) ==       \* ps: sequence of names still to write
             ELSE ParamToks(style, n, vals[n]) \o (IF rest = <<>> THEN <<>> ELSE CommaToks(style) \o rest)
 
 \* one X-Matrix header with the given origin value
-Header(w, o) ==
+HeaderK(w, o, key, sig) ==
     LET vals == [n \in Known |-> CASE n = "origin" -> o [] n = "destination" -> w.dest
-                                   [] n = "key" -> w.key [] n = "sig" -> w.sig]
+                                   [] n = "key" -> key [] n = "sig" -> sig]
         list == Join(w.style, NameOrder(w.style), vals)
     IN <<Tok("scheme", w.scheme), Tok("sp", IF w.style = "spaces" THEN "  " ELSE " ")>> \o list
+
+Header(w, o) == HeaderK(w, o, w.key, w.sig)
 
 Bearer == <<Tok("scheme", "Bearer"), Tok("sp", " "), Tok("b", "c2VjcmV0")>>
 
@@ -195,6 +214,9 @@ Headers(w) ==
     (IF w.bearer THEN <<Bearer>> ELSE <<>>)
     \o (IF w.nohdr THEN <<>>
         ELSE <<Header(w, w.origin)>>
+             \* one header per signature: the second key's header shares scheme, origin and destination with
+             \* the first (tamperings of those rewrite both), key / signature tamperings hit the first only
+             \o (IF w.nk = 2 THEN <<HeaderK(w, w.origin, "Kb", "S0b")>> ELSE <<>>)
              \o (IF w.dup THEN <<Header(w, w.origin)>> ELSE <<>>)
              \o (IF w.second THEN <<Header(w, "O2")>> ELSE <<>>)
              \o (IF w.secondc THEN <<Header(w, "Oc")>> ELSE <<>>))
@@ -207,9 +229,19 @@ JSONType(c)    == c \in {"json", "jsonparam"}
 UTF8(b)        == b \in {"B", "B2"}
 \* the key database: (O, K) in state kv; (O2, K) a valid key of the other server; nothing else
 \* (the key of O is also filed under the other spelling Oc)
-KeyValidNow(o, key, kv) == (o \in {"O", "Oc"} /\ key = "K" /\ kv \in {"valid", "validfar"}) \/ (o = "O2" /\ key = "K")
+\* which of the signing keys the receiver has a record of: known \in {"both", "first", "second", "neither"};
+\* the record of Kb, if any, is valid
+KeyValidNow(o, key, kv, known) ==
+    \/ o \in {"O", "Oc"} /\ key = "K" /\ known \in {"both", "first"} /\ kv \in ValidKVs
+    \/ o \in {"O", "Oc"} /\ key = "Kb" /\ known \in {"both", "second"}
+    \/ o = "O2" /\ key = "K"
+\* does signature sg, presented with key ID key, verify for the received fields f
+SigVerifies(key, sg, f) ==
+    /\ f = [m |-> signed.m, u |-> signed.u, o |-> signed.o, d |-> signed.d, b |-> signed.b]
+    /\ \/ key = "K" /\ sg = "S0"
+       \/ key = "Kb" /\ sg = "S0b" /\ signed.nk = 2
 
-Verdict(w, cfg, kv) ==
+Verdict(w, cfg, kv, known) ==
     LET hs == Headers(w)
         rd == [i \in 1..Len(hs) |-> Read(hs[i])]
         xi == {i \in 1..Len(hs) : rd[i].x}                       \* the X-Matrix credentials
@@ -220,23 +252,22 @@ Verdict(w, cfg, kv) ==
         o   == rd[f].origin
         dp  == rd[f].destination
         d   == IF dp = "" THEN "P" ELSE dp          \* backward compatible: no destination = the receiver's default name
-        key == rd[f].key
-        sg  == rd[f].sig
+        fields == [m |-> w.method, u |-> w.uri, o |-> o, d |-> d, b |-> w.body]
         acc == /\ hdrOK
                /\ OriginValid(o)
                /\ Owned(d, cfg)
                /\ (w.body # "none" => JSONType(w.ctype) /\ UTF8(w.body))
-               /\ sg = "S0"
-               /\ signed = [m |-> w.method, u |-> w.uri, o |-> o, d |-> d, b |-> w.body, key |-> key]
-               /\ KeyValidNow(o, key, kv)
+               \* at least one of the presented signatures verifies with a key valid now
+               /\ \E i \in xi : SigVerifies(rd[i].key, rd[i].sig, fields) /\ KeyValidNow(o, rd[i].key, kv, known)
     IN IF acc THEN [accept |-> TRUE, m |-> w.method, u |-> w.uri, o |-> o, d |-> d, b |-> w.body]
               ELSE [accept |-> FALSE, m |-> "", u |-> "", o |-> "", d |-> "", b |-> ""]
 
-Receive(cfg, kv) ==
+Receive(cfg, kv, known) ==
     /\ phase = "sent"
-    /\ Dev + Cardinality(applied) + (IF kv = BaseKV THEN 0 ELSE 1) <= Budget
-    /\ rcv' = [cfg |-> cfg, kv |-> kv]
-    /\ out' = Verdict(wire, cfg, kv)
+    /\ signed.nk = 1 => known = BaseKnown         \* (with one signing key "K unknown" is the key state "unknown")
+    /\ Dev + Cardinality(applied) + (IF kv = BaseKV THEN 0 ELSE 1) + (IF known = BaseKnown THEN 0 ELSE 1) <= Budget
+    /\ rcv' = [cfg |-> cfg, kv |-> kv, known |-> known]
+    /\ out' = Verdict(wire, cfg, kv, known)
     /\ phase' = "received"
     /\ UNCHANGED <<req, signed, wire, applied>>
 
@@ -248,12 +279,12 @@ Next == \/ /\ phase = "init"       \* (guards repeated outside the quantifiers: 
                  osp \in Spellings, dsp \in Spellings :
                  /\ (ds = "invalid" => down = "F")       \* a receiver owns no invalid name
                  /\ Compose(m, u, os, osp, ds, dsp, down, b)
-        \/ Sign("K")
+        \/ \E nk \in NKeys : Sign(nk)
         \/ /\ phase = "signed"
            /\ \E st \in Styles : Emit(st)
         \/ /\ phase = "sent"
            /\ \/ \E k \in TamperKinds : Tamper(k)
-              \/ \E cfg \in Cfgs, kv \in KeyVals : Receive(cfg, kv)
+              \/ \E cfg \in Cfgs, kv \in KeyVals, known \in Knowns : Receive(cfg, kv, known)
 
 Spec == Init /\ [][Next]_vars
 
@@ -275,11 +306,16 @@ NoEffect(k) ==
     \/ k \in {"ctype_text", "ctype_none"} /\ wire.body = "none"
     \/ k = "drop_dest" /\ signed.d = "P"              \* the documented backward compatible case
 
+\* the receiver has a valid record of at least one of the keys the origin signed with
+SomeSigningKeyValid ==
+    \/ rcv.known \in {"both", "first"} /\ rcv.kv \in ValidKVs
+    \/ signed.nk = 2 /\ rcv.known \in {"both", "second"}
+
 \* accepted at the named destination when sent as signed
 Complete ==
     (Done /\ (\A k \in applied : NoEffect(k))
           /\ Owned(signed.d, rcv.cfg) /\ req.os \notin InvalidOrigins /\ req.body # "nonutf8"
-          /\ rcv.kv \in {"valid", "validfar"})
+          /\ SomeSigningKeyValid)
     => out.accept
 
 \* the refusal clauses of the property sentence, one by one
@@ -287,8 +323,9 @@ RefuseForeign   == (Done /\ ~Owned(signed.d, rcv.cfg) /\ applied \cap {"drop_des
 RefuseNoHeader  == (Done /\ applied \cap {"no_header", "scheme", "drop_origin", "drop_key", "drop_sig", "second_origin", "second_case"} # {}) => ~out.accept
 RefuseBadOrigin == (Done /\ req.os \in InvalidOrigins /\ "origin" \notin applied) => ~out.accept
 RefuseBadBody   == (Done /\ wire.body # "none" /\ (wire.ctype \in {"text", "absent"} \/ wire.body \in {"X", "X2"})) => ~out.accept
-RefuseBadKey    == (Done /\ rcv.kv \notin {"valid", "validfar"}) => ~out.accept
-RefuseChanged   == (Done /\ applied \cap {"method", "uri", "origin", "dest_local", "dest_foreign", "body", "nonutf8", "sig_flip", "key_other", "origin_case", "dest_case"} # {}) => ~out.accept
+RefuseBadKey    == (Done /\ ~SomeSigningKeyValid) => ~out.accept
+RefuseChanged   == (Done /\ applied \cap {"method", "uri", "origin", "dest_local", "dest_foreign", "body", "nonutf8", "origin_case", "dest_case"} # {}) => ~out.accept
+RefuseBadSig    == (Done /\ signed.nk = 1 /\ applied \cap {"sig_flip", "key_other"} # {}) => ~out.accept
 
 TypeOK == /\ phase \in {"init", "composed", "signed", "sent", "received"}
           /\ Cardinality(applied) <= MaxTamper
